@@ -1,6 +1,7 @@
 """C16 - ParsedException text round trip; TracebackInfo / ExceptionInfo vs the interpreter's traceback module.
 
-Engine E2 (mc.inputs), two exhaustively enumerated spaces:
+Engine E2 (mc.inputs), three exhaustively enumerated parts (bounds per tier: see text_units, marker_units,
+program_chains and the evidence's coverage.bounds):
 
 * part `texts`   - grammar product of traceback texts.  Every piece of text (frame entry, final exception
   line) is produced by the standard library itself (`traceback.format_list` on a `FrameSummary`,
